@@ -279,19 +279,26 @@ Theorem C20_component_default_portrayal : forall c ops,
 Proof. exact component_default_portrayal. Qed.
 Print Assumptions C20_component_default_portrayal.
 
-(* Altair encodings (colour / size legends and scales) are taken from the FIRST row of the data only.
-   Full statement, "the chart encodes colour (size) whenever some agent's portrayal returned one":
-     forall c ops, (exists a in the space with a colour) -> enc_color = 1
-   holds when all agents portray the same key set (partial) and is REFUTED in general: *)
-Theorem C20_altair_encoding_partial : forall c ops kc ks,
+(* Altair encodings (colour / size legends and scales), code as repaired (fixes/C20-10): after any history on an
+   Altair-supported space the chart encodes colour (size) exactly when some agent in the space has one in its portrayal *)
+Theorem C20_altair_encoding : forall c ops,
   let sp := c_space c in let pt := c_portrayal c in
   let st := exec sp pt (init_state c) ops in
-  altair_supported sp -> st_agents st <> [] ->
-  (forall a, In a (st_agents st) -> oflag (pd_color (portray pt (a_kind a))) = kc /\
-                                     oflag (pd_size (portray pt (a_kind a))) = ks) ->
-  enc_color sp pt (st_agents st) = kc /\ enc_size sp pt (st_agents st) = ks.
-Proof. exact altair_encoding_uniform. Qed.
-Print Assumptions C20_altair_encoding_partial.
+  altair_supported sp ->
+  (enc_color sp pt (st_agents st) = 1 <-> exists a, In a (st_agents st) /\ oflag (pd_color (portray pt (a_kind a))) = 1) /\
+  (enc_size sp pt (st_agents st) = 1 <-> exists a, In a (st_agents st) /\ oflag (pd_size (portray pt (a_kind a))) = 1).
+Proof. exact altair_encoding_all_rows. Qed.
+Print Assumptions C20_altair_encoding.
+
+(* the encodings are computed by the TRANSLATED source expression (harness/tables/viz_code.py: which dict the
+   tooltip / color / size tests read, and how it is built) *)
+Theorem C20_source_altair_encodings : forall rows,
+  gen_altair_enc_dict rows = rows_union rows /\
+  gen_altair_enc_flags (rows_union rows) =
+    [oflag (pd_color (rows_union rows)); oflag (pd_size (rows_union rows));
+     oflag (pd_marker (rows_union rows)); oflag (pd_zorder (rows_union rows))].
+Proof. intros rows. split; reflexivity. Qed.
+Print Assumptions C20_source_altair_encodings.
 
 Definition enc_case : case :=
   {| c_space := {| sp_family := Orth; sp_w := 2; sp_h := 1; sp_x0 := 0; sp_y0 := 0; sp_single := false;
@@ -299,17 +306,16 @@ Definition enc_case : case :=
      c_portrayal := [(0, pd_empty); (1, {| pd_size := Some 40; pd_color := Some 3; pd_marker := None; pd_zorder := None |})];
      c_layer := None; c_ops := [Place 1 0 0 0; Place 2 1 1 0] |}.
 
+(* the shape of the unrepaired code (encodings from the first row only) violates the statement *)
 Theorem C20_altair_encoding_first_row_only_refuted :
-  exists c ops,
-    let sp := c_space c in let pt := c_portrayal c in
-    let st := exec sp pt (init_state c) ops in
-    altair_supported sp /\
-    (exists a, In a (st_agents st) /\ pd_color (portray pt (a_kind a)) = Some 3 /\ pd_size (portray pt (a_kind a)) = Some 40) /\
-    enc_color sp pt (st_agents st) = 0 /\ enc_size sp pt (st_agents st) = 0.
+  exists rows : list arow,
+    (exists r, In r rows /\ pd_color (ar_d r) = Some 3 /\ pd_size (ar_d r) = Some 40) /\
+    oflag (pd_color (rows_first rows)) = 0 /\ oflag (pd_size (rows_first rows)) = 0 /\
+    oflag (pd_color (rows_union rows)) = 1 /\ oflag (pd_size (rows_union rows)) = 1.
 Proof.
-  exists enc_case, (c_ops enc_case). cbv zeta. split; [left; split; [right; reflexivity|left; reflexivity]|].
-  split; [|vm_compute; split; reflexivity].
-  exists {| a_id := 2; a_kind := 1; a_pos := Some (1, 0); a_cell := None |}. vm_compute. repeat split. right. left. reflexivity.
+  exists [ {| ar_loc := (0, 0); ar_d := pd_empty |};
+           {| ar_loc := (1, 0); ar_d := {| pd_size := Some 40; pd_color := Some 3; pd_marker := None; pd_zorder := None |} |} ].
+  split; [eexists; split; [right; left; reflexivity|split; reflexivity]|]. vm_compute. repeat split; reflexivity.
 Qed.
 Print Assumptions C20_altair_encoding_first_row_only_refuted.
 
@@ -443,7 +449,7 @@ Proof. vm_compute. repeat split; reflexivity. Qed.
 
 Example C20_example_round3 :
   let st := exec (c_space enc_case) (c_portrayal enc_case) (init_state enc_case) (c_ops enc_case) in
-  obs_altair_enc (c_space enc_case) (c_portrayal enc_case) (st_agents st) = [0; 0; 0; 0; 0; 30000; 1] /\
+  obs_altair_enc (c_space enc_case) (c_portrayal enc_case) (st_agents st) = [0; 1; 1; 0; 0; 0; 1] /\
   obs_altair_enc (c_space enc_case) (c_portrayal enc_case) (st_agents (exec (c_space enc_case) (c_portrayal enc_case) st [Move 1 1 0; Move 1 0 0; Remove 1]))
     = [0; 1; 1; 0; 0; 0; 1] /\
   creator_kwargs [(1, VFixed 5); (2, VSlider 6); (3, VDictType 7); (4, VDictNoType 8)] = [(1, 5); (4, 8); (2, 6); (3, 7)] /\
